@@ -137,7 +137,9 @@ CLAIMS["C09"] = _b(
     "ending a connection: the channel and bus-listener gauges equal the sizes of the maps, map keys are unique and below the cookie "
     "counter (channel_listener_gauges_all_histories) — using the translator fact that create_channel counts before replying, which is "
     "where the defect fixed in 2be3d48 breaks the proof; run-loop exit condition and shutdown events (finished_iff, "
-    "broker_shutdown_queues_all, idle_shutdown_sets_flag). Gauges for connections/objects/services and 'no residual state' are decided "
+    "broker_shutdown_queues_all, idle_shutdown_sets_flag); gauges for connections/objects/services (registry_gauges_all_histories); in "
+    "every reachable state a call whose caller is no longer connected is marked aborted, so nothing is delivered for it any more "
+    "(calls_of_a_removed_connection_are_ended, no_connections_no_live_call; cross-reference invariant of C02). The rest of 'no residual state' is decided "
     "by the correspondence runs: every scenario ends by closing everything (two orders), compares take_statistics with the model, the "
     "model's gauges with its map sizes, and requires Broker::run to finish: partial on those clauses.", "DESIGN.md section 6 C09")
 CLAIMS["C10"] = _b(
